@@ -29,8 +29,8 @@ type Srv struct {
 	S      *bttest.Server
 	API    bttest.VerifAPI
 	clock  int64
-	// WrapStorage, when set before Start, decorates the storage engine.
 	ownDir bool
+	track  *trackStorage
 }
 
 func storageFor(engine, dir string) bttest.Storage {
@@ -66,7 +66,9 @@ func NewSrvWrap(engine, dir string, wrap func(bttest.Storage) bttest.Storage) (s
 			err = fmt.Errorf("panic while starting the server: %v\n%s", r, debug.Stack())
 		}
 	}()
-	st := storageFor(engine, s.Dir)
+	tr := newTrackStorage(storageFor(engine, s.Dir))
+	s.track = &tr
+	var st bttest.Storage = tr
 	if wrap != nil {
 		st = wrap(st)
 	}
@@ -97,6 +99,9 @@ func (s *Srv) Close() {
 		}()
 		select {
 		case <-done:
+			if s.track != nil {
+				s.track.closeLeaked()
+			}
 		case <-time.After(3 * time.Second):
 		}
 		s.S = nil
